@@ -176,7 +176,7 @@ def main(tier, n=None):
     rep = common.Report(PROP, tier, "exploration", RULE)
     rep.assumptions = ["entries for dependencies whose output directory is empty or absent are don't-care", "a pre-existing symlink is replaced (it cannot be told apart from a link Conductor made)"]
     rng = common.rng_for("c18", common.base_seed())
-    total = n or (150 if tier == "quick" else 2500)
+    total = n or (400 if tier == "quick" else 4000)
     cases = [gen_case(rng) for _ in range(total)]
     cli.warm()
     res = common.parallel_map(eval_case, cases, timeout=600)
